@@ -271,6 +271,48 @@ pattern): Model `fsLine` starts every line from `⟨dirname, [], false, 0, 0⟩`
 theorem tie_loadManifestCursorDecls : loadManifestCursorDecls =
     ["var anyFileTokens bool", "var pos int64", "var segIdx int", "segments = segments[:0]"] := rfl
 
+/-- `sendFileSegmentIterByName`: the segment arithmetic (Model `sendLoop`: `len0`, `off`, `len1`, `len2`) and the zero-length marker. -/
+theorem tie_sendArith : sendArith =
+    ["ch <- &FileSegment{Locator: \"d41d8cd98f00b204e9800998ecf8427e+0\", Offset: 0, Len: 0}",
+     "Locator: s.Blocks[i],",
+     "Offset:  0,",
+     "Len:     int(blockEnd - blockPos),",
+     "fseg.Offset = int(wantPos - blockPos)",
+     "fseg.Len -= fseg.Offset",
+     "fseg.Len = int(wantPos+wantLen-blockPos) - fseg.Offset",
+     "ch <- &fseg"] := rfl
+
+/-- `loadManifest`: the cursor and clipping arithmetic (Model `fsLoop`: `next`, `blkOff`, `blkLen0`, `blkLen`; rewind; the stored segment's fields). -/
+theorem tie_loadManifestArith : loadManifestArith =
+    ["offset:  0,",
+     "locator: token,",
+     "size:    int(length),",
+     "offset:  0,",
+     "length:  int(length),",
+     "segIdx, pos = 0, 0",
+     "next := pos + int64(seg.Len())",
+     "pos = next",
+     "blkOff = int(offset - pos)",
+     "blkLen := seg.Len() - blkOff",
+     "blkLen = int(offset + length - pos - int64(blkOff))",
+     "locator: seg.locator,",
+     "size:    seg.size,",
+     "offset:  blkOff,",
+     "length:  blkLen,",
+     "pos = next"] := rfl
+
+/-- `parseManifestStream` offsets and `normalizedText` span arithmetic (Model `offsetsFrom`, `normBlocks`, `normSpans`). -/
+theorem tie_normalizedTextArith : normalizedTextArith =
+    ["streamoffset += uint64(bl.Size)",
+     "blocks[b.Digest] = streamoffset",
+     "streamoffset += int64(b.Size)",
+     "streamoffset = blocks[b.Digest] + int64(segment.Offset)",
+     "spanStart = streamoffset",
+     "spanEnd = streamoffset + int64(segment.Len)",
+     "spanEnd += int64(segment.Len)",
+     "spanStart = streamoffset",
+     "spanEnd = streamoffset + int64(segment.Len)"] := rfl
+
 /-! Model-side readings of the tied literals (so that the model constants are pinned too). -/
 
 theorem tie_model_pkgEscapePred (c : UInt8) : ArvVerif.C10.pkgEscapePred c = (decide (c ≤ 32) || c == 92) := rfl
